@@ -27,8 +27,8 @@ RULE = (
     "PYTHONHASHSEED=0 and =4242, one analysing the corpus front-to-back and the other back-to-"
     "front (answers must not depend on what was analysed before); sequences may also analyse an "
     "unrelated decoy pickle (numerically equal constants of other types) between queries, and "
-    "apply a stack-neutral edit (insert() of push...POP runs incl. STACK_GLOBAL, GLOBAL, a call, "
-    "PROTO) to both copies, after which every answer must equal that of a never-queried parse of "
+    "apply an edit (insert() of push...POP runs incl. STACK_GLOBAL, GLOBAL, a call, PROTO; or a "
+    "two-step edit whose second step inserts a lone STACK_GLOBAL after further queries) to both copies, after which every answer must equal that of a never-queried parse of "
     "the edited bytes. "
     "Non-trivial = the sequence asks some "
     "kind again after a different kind, and the pickle contains a dict/set/frozenset or yields "
@@ -130,8 +130,24 @@ def _edit_ops(k):
 
 def apply_edit(p, k, at):
     """the same edit through the sequence interface (insert(), one opcode at a time)"""
+    from fickling import fickle as F
+
     n = len(p)
     i = at % n if n else 0
+    if k == 6:
+        # first half of a two-step edit: two text constants, one of them popped again
+        for j, op in enumerate([F.ConstantOpcode.new("os"), F.ConstantOpcode.new("getpid"), F.Pop()]):
+            p.insert(i + j, op)
+        return
+    if k == 7:
+        # second half, possibly many queries later: a single STACK_GLOBAL between them and the POP
+        ops = list(p)
+        for j in range(len(ops) - 2):
+            if (ops[j].name, ops[j + 1].name, ops[j + 2].name) == ("SHORT_BINUNICODE", "SHORT_BINUNICODE", "POP") \
+                    and (ops[j].arg, ops[j + 1].arg) == ("os", "getpid"):
+                p.insert(j + 2, F.StackGlobal())
+                return
+        return
     for j, op in enumerate(_edit_ops(k)):
         p.insert(i + j, op)
 
@@ -348,15 +364,21 @@ def _case_strategy():
         st.one_of(values.plain_values(), values.instance_values()), st.sampled_from(range(6))
     ).map(lambda t: _dumps(*t))
     data = st.one_of(progs, nat).filter(lambda b: b is not None)
-    seq = st.lists(
+    query = st.tuples(st.sampled_from(QUERIES), st.sampled_from([0, 1]))
+    free = st.lists(
         st.one_of(
-            st.tuples(st.sampled_from(QUERIES), st.sampled_from([0, 1])),
+            query,
             st.tuples(st.just("decoy"), st.integers(0, len(DECOYS) - 1)),
-            st.tuples(st.just("edit"), st.tuples(st.integers(0, 5), st.integers(0, 30))),
+            st.tuples(st.just("edit"), st.tuples(st.integers(0, 7), st.integers(0, 30))),
         ),
         min_size=2, max_size=12,
     )
-    return st.tuples(data, seq)
+    # a two-step edit with queries (i.e. populated caches) before, between and after the steps
+    qs = st.lists(query, min_size=1, max_size=3)
+    two_step = st.tuples(qs, st.integers(0, 30), qs, qs).map(
+        lambda t: t[0] + [("edit", (6, t[1]))] + t[2] + [("edit", (7, 0))] + t[3]
+    )
+    return st.tuples(data, st.one_of(free, free, free, two_step))
 
 
 def _dumps(v, proto):
